@@ -18,8 +18,14 @@ def wire_configs(thorough):
     return cfgs
 
 
-def enc_cmd(be, k, m, hd, ct, length, seed, bytes_):
-    return "enc_bytes %d %d %d %d %d %d %d %d %d" % (be, k, m, hd, WORD[be], ct, length, seed, bytes_)
+def enc_cmd(be, k, m, hd, ct, length, seed, bytes_, w=None):
+    return "enc_bytes %d %d %d %d %d %d %d %d %d" % (be, k, m, hd, WORD[be] if w is None else w, ct, length, seed, bytes_)
+
+
+# word sizes a caller may pass besides the backend's own: the wire format and the sizes are functions of
+# (backend, k, m, hd, checksum type, data) only, so an instance that is accepted with another w must produce the same
+# bytes and the same sizes (refusing the configuration is fine too)
+OTHER_W = {BE_RS: [8, 32, 64, 4], BE_XOR: [8, 16, 64, 4], BE_NULL: [8, 16]}
 
 
 def hdr_cmd(be, k, m, hd, ct, length, seed, fams, count):
@@ -61,6 +67,10 @@ def c07():
                     if (L + ci) % 4 == 0:
                         other = " -" if leg not in (None, "", "0") else (" 1" if (ci + L) % 8 else " yes")
                     cmds.append(enc_cmd(be, k, m, hd, ct, L, _seed_of(chk, L + ci * 1000), 1) + other)
+            if li == 0:
+                for wi, w_ in enumerate(OTHER_W.get(be, [])):
+                    for L in (1, a + 1, 3 * a + 7, 100 + ci):
+                        cmds.append(enc_cmd(be, k, m, hd, 1 + (wi + L) % 2, L, _seed_of(chk, L + ci * 1000 + wi), 1, w=w_))
             # large inputs: header bytes + data-slice property on the real bytes
             for j, L in enumerate([65536 + ci, (1 << 20) - ci] if (thorough or ci < 4) else [40000 + ci]):
                 cmds.append(enc_cmd(be, k, m, hd, 2 - (j % 2), L, _seed_of(chk, 77 + j), 2))
@@ -118,6 +128,11 @@ def c08():
                 continue
             i += 1
             cmds.append(enc_cmd(be, k, m, hd, 1, L, _seed_of(chk, i), 0))
+        for w_ in OTHER_W.get(be, []):
+            for L in [0, 1, a - 1, a, a + 1, 2 * a + 3, 1000, 65537]:
+                if L >= 0:
+                    i += 1
+                    cmds.append(enc_cmd(be, k, m, hd, 1, L, _seed_of(chk, i), 0, w=w_))
     v, files = _run(chk, cmds, "C08", ["C08", "C07 encode of", "fault", "create failed"], max_lines=4000)
     c = v.counts or [0] * 14
     m1 = tlc("MC_Wire", "MC_Wire", workers=4, timeout=600, tag="C08")
@@ -181,7 +196,8 @@ def c09():
 def c10():
     def extra(chk, thorough):
         return ["crcalt %d 300 %d" % (2000 if thorough else 400, _seed_of(chk, 5))]
-    chk, v, files, rule = _hdr_check("C10", 64 | 16, ["C10"], 40, 200, "", extra_cmds=extra, lens=[13, 60, 0, 100, 3])
+    chk, v, files, rule = _hdr_check("C10", 64 | 16 | 32, ["C10", "C11 opposite-endian payload mismatch", "C11 opposite-endian checksum type"],
+                                     40, 200, "", extra_cmds=extra, lens=[13, 60, 0, 100, 3])
     thorough = chk.tier == "thorough"
     # the historical CRC against its bitwise definition on the production configuration too (implementation-defined shifts)
     vg, fg = _run(chk, ["crcalt %d 300 %d" % (400, _seed_of(chk, 6))], "C10-gcc", ["C10", "fault"], variant="gcc")
